@@ -32,7 +32,7 @@ NoEv == [exec |-> "", stack |-> <<>>, state |-> "", sn |-> 0, stype |-> "", smid
 
 Fresh(tid) ==
     [tid |-> tid, b |-> EmptyBroker, msg |-> <<>>, ev |-> <<>>, fr |-> NoFrame, ex |-> <<>>,
-     timers |-> {}, rpcs |-> {}, smtype |-> <<>>, smmc |-> <<>>, store |-> "file", crashed |-> FALSE,
+     timers |-> {}, rpcs |-> {}, smtype |-> <<>>, smmc |-> <<>>, smsucc |-> <<>>, store |-> "file", crashed |-> FALSE,
      launched |-> {}, failedIDs |-> {}, folen |-> <<>>, foparent |-> <<>>, taintX |-> <<>>,
      evprefix |-> "asl_workflow_events", replyprefix |-> "asl_workflow_reply_to", qtype |-> "classic"]
 
@@ -191,6 +191,16 @@ StepPub(s, e) ==
                  "C19", "StartOnShared", e.exec, e.key)
          \o ChkX(~(isev /\ byengine /\ e.state # "") \/ (~e.shared /\ e.key = s.evprefix \o "-" \o e.conn),
                  "C19", "Affinity:published-to-another-queue", e.exec, e.key)
+         (* C01/C09 "in an order consistent with the transitions taken": an event published while an event of state S is
+            being handled is for a state the definition lets S lead to (itself, its Next / Choice / Default / Catch targets,
+            its branches' start states; out of a fan-out: the fan-out, its Next and Catch targets, outwards) *)
+         \o (LET allowed == \E m \in s.fr.trig :
+                                LET t == Ev(s, m) IN
+                                /\ t.smid = e.smid /\ t.smid \in DOMAIN s.smsucc
+                                /\ t.state \in DOMAIN s.smsucc[t.smid] /\ e.state \in s.smsucc[t.smid][t.state]
+                 known == \E m \in s.fr.trig : Ev(s, m).smid = e.smid /\ e.smid \in DOMAIN s.smsucc
+             IN ChkX(~(isev /\ byengine /\ e.state # "" /\ known) \/ allowed, "C09", "TransitionAllowed", e.exec,
+                     [from |-> {Ev(s, m).state : m \in s.fr.trig}, to |-> e.state]))
          (* C19: a child launched synchronously (its parent's pending request lives in this instance) starts on this
             instance's own queue; a fire-and-forget child may be taken by any instance *)
          \o ChkX(~(isev /\ byengine /\ e.state = "" /\ e.childkind = "sync") \/ (~e.shared /\ e.key = s.evprefix \o "-" \o e.conn),
@@ -363,7 +373,10 @@ StepOther(s, e) ==
       [] e.k = "expire"   -> R([s EXCEPT !.b = IF CanDropHead(@, e.q, e.sn) THEN DropHead(@, e.q) ELSE @],
                                Chk(CanDropHead(s.b, e.q, e.sn), "ENV", "ExpireAtHead"))
       [] e.k = "sm"       -> R([s EXCEPT !.smtype = Upd(@, e.arn, e.smtype),
-                                         !.smmc = Upd(@, e.arn, [nm \in {e.mc[j].state : j \in 1..Len(e.mc)} |-> McOf(e.mc, nm)])], <<>>)
+                                         !.smmc = Upd(@, e.arn, [nm \in {e.mc[j].state : j \in 1..Len(e.mc)} |-> McOf(e.mc, nm)]),
+                                         !.smsucc = Upd(@, e.arn, [nm \in {e.succ[j].state : j \in 1..Len(e.succ)} |->
+                                                                      LET j == CHOOSE j \in 1..Len(e.succ) : e.succ[j].state = nm
+                                                                      IN {e.succ[j].to[i] : i \in 1..Len(e.succ[j].to)}])], <<>>)
       [] e.k = "storeerr" -> R(s, FX("ENV", "StoreReadable", "", e.err))
       [] e.k = "escaped"  -> R(s, FX("C18", "NoEscapedException", "", e.err))
       (* the stored history got shorter: a violation of C09; the observation restarts from the first event *)
